@@ -15,7 +15,6 @@ import (
 
 	"github.com/markusressel/fan2go/internal"
 	"github.com/markusressel/fan2go/internal/configuration"
-	"github.com/markusressel/fan2go/internal/control_loop"
 	"github.com/markusressel/fan2go/internal/controller"
 	"github.com/markusressel/fan2go/internal/curves"
 	"github.com/markusressel/fan2go/internal/fans"
@@ -26,6 +25,7 @@ import (
 	"github.com/markusressel/fan2go/zverif/world"
 	"github.com/prometheus/client_golang/prometheus"
 	"github.com/pterm/pterm"
+	"github.com/spf13/viper"
 	bolt "go.etcd.io/bbolt"
 )
 
@@ -111,131 +111,27 @@ func FanIndex(sc *world.Scenario, chip int, ch int) int {
 	return 0
 }
 
-// BuildConfig translates the scenario into fan2go's configuration struct.
-func BuildConfig(sc *world.Scenario, w *world.World) configuration.Configuration {
-	cfg := configuration.Configuration{
-		DbPath:                         w.DBPath(),
-		RunFanInitializationInParallel: sc.ParallelInit,
-		MaxRpmDiffForSettledFan:        sc.MaxRpmDiff,
-		FanResponseDelay:               sc.FanResponseDelay,
-		TempSensorPollingRate:          sc.TempPoll.D(),
-		TempRollingWindowSize:          sc.TempWin,
-		RpmPollingRate:                 sc.RpmPoll.D(),
-		RpmRollingWindowSize:           sc.RpmWin,
-		ControllerAdjustmentTickRate:   sc.Tick.D(),
+// LoadConfiguration gives the scenario to fan2go the way a user does: as the text of a configuration file
+// (ConfigYAML) that the real loader reads (configuration.InitConfig, viper, configuration.LoadConfig with its
+// decode hooks). Nothing in the harness names a field of the configuration structs, so whatever the loader
+// makes of a spelling is what the world runs with.
+func LoadConfiguration(sc *world.Scenario, w *world.World) (err error) {
+	path := w.Dir + "/fan2go.yaml"
+	if err := os.WriteFile(path, []byte(ConfigYAML(sc, w)), 0644); err != nil {
+		return err
 	}
-	for i := range sc.Sensors {
-		s := &sc.Sensors[i]
-		c := configuration.SensorConfig{ID: s.ID}
-		st := w.Sensors[s.ID]
-		switch s.Kind {
-		case "hwmon":
-			c.HwMon = &configuration.HwMonSensorConfig{Platform: PlatformOf(&sc.Chips[s.Chip]), Index: TempIndex(sc, s.Chip, s.TempN)}
-		case "file":
-			c.File = &configuration.FileSensorConfig{Path: cfgPath(st)}
-		case "cmd":
-			c.Cmd = &configuration.CmdSensorConfig{Exec: st.Exe, Args: []string{}}
+	defer func() {
+		if r := recover(); r != nil {
+			err = fmt.Errorf("loading the generated configuration: %v", r)
 		}
-		cfg.Sensors = append(cfg.Sensors, c)
+	}()
+	viper.Reset()
+	configuration.InitConfig(path)
+	if err := viper.ReadInConfig(); err != nil {
+		return fmt.Errorf("reading the generated configuration: %w", err)
 	}
-	for i := range sc.Curves {
-		c := &sc.Curves[i]
-		cc := configuration.CurveConfig{ID: c.ID}
-		switch c.Kind {
-		case "linear":
-			cc.Linear = &configuration.LinearCurveConfig{Sensor: c.Sensor, Min: c.Min, Max: c.Max}
-		case "steps":
-			steps := map[int]float64{}
-			for k, v := range c.Steps {
-				steps[k] = v
-			}
-			cc.Linear = &configuration.LinearCurveConfig{Sensor: c.Sensor, Steps: steps}
-		case "pid":
-			cc.PID = &configuration.PidCurveConfig{Sensor: c.Sensor, SetPoint: c.PID.SetPoint, P: c.PID.P, I: c.PID.I, D: c.PID.D}
-		case "function":
-			cc.Function = &configuration.FunctionCurveConfig{Type: c.Func, Curves: append([]string(nil), c.Members...)}
-		}
-		cfg.Curves = append(cfg.Curves, cc)
-	}
-	for i := range sc.Fans {
-		f := &sc.Fans[i]
-		fc := configuration.FanConfig{ID: f.ID, NeverStop: f.NeverStop, Curve: f.Curve}
-		if f.MinPwm != nil {
-			fc.MinPwm = world.IntP(*f.MinPwm)
-		}
-		if f.StartPwm != nil {
-			fc.StartPwm = world.IntP(*f.StartPwm)
-		}
-		if f.MaxPwm != nil {
-			fc.MaxPwm = world.IntP(*f.MaxPwm)
-		}
-		if f.PwmMap != nil {
-			m := map[int]int{}
-			for k, v := range *f.PwmMap {
-				m[k] = v
-			}
-			fc.PwmMap = &m
-		}
-		switch f.Algo.Kind {
-		case "direct":
-			d := &configuration.DirectControlAlgorithmConfig{}
-			if f.Algo.MaxChange != nil {
-				d.MaxPwmChangePerCycle = world.IntP(*f.Algo.MaxChange)
-			}
-			fc.ControlAlgorithm = &configuration.ControlAlgorithmConfig{Direct: d}
-		case "pid":
-			fc.ControlAlgorithm = &configuration.ControlAlgorithmConfig{Pid: &configuration.PidControlAlgorithmConfig{P: f.Algo.P, I: f.Algo.I, D: f.Algo.D}}
-		case "legacy":
-			fc.ControlLoop = &configuration.ControlLoopConfig{P: f.Algo.P, I: f.Algo.I, D: f.Algo.D} //nolint
-		case "pidword", "directword":
-			// the option given as a bare word, decoded by the real text unmarshaller
-			ca := &configuration.ControlAlgorithmConfig{}
-			if err := ca.UnmarshalText([]byte(strings.TrimSuffix(f.Algo.Kind, "word"))); err == nil {
-				fc.ControlAlgorithm = ca
-			}
-		}
-		st := w.Fans[f.ID]
-		switch f.Kind {
-		case "hwmon":
-			h := &configuration.HwMonFanConfig{Platform: PlatformOf(&sc.Chips[f.Chip]), PwmChannel: f.PwmChan}
-			if f.ByIndex {
-				h.Index = FanIndex(sc, f.Chip, f.Channel)
-			} else {
-				h.RpmChannel = f.Channel
-			}
-			fc.HwMon = h
-		case "file":
-			fc.File = &configuration.FileFanConfig{Path: st.PwmPath, RpmPath: st.RpmPath}
-		case "cmd":
-			c := &configuration.CmdFanConfig{
-				SetPwm: &configuration.ExecConfig{Exec: st.SetPwmExe, Args: []string{"%pwm%"}},
-			}
-			if !f.NoGetPwm {
-				c.GetPwm = &configuration.ExecConfig{Exec: st.GetPwmExe, Args: []string{}}
-			}
-			if st.GetRpmExe != "" {
-				c.GetRpm = &configuration.ExecConfig{Exec: st.GetRpmExe, Args: []string{}}
-			}
-			fc.Cmd = c
-		}
-		cfg.Fans = append(cfg.Fans, fc)
-	}
-	return cfg
-}
-
-// ControlLoopFor mirrors the daemon's algorithm selection (backend.go).
-func ControlLoopFor(config configuration.FanConfig) control_loop.ControlLoop {
-	if config.ControlLoop != nil { //nolint
-		return control_loop.NewPidControlLoop(config.ControlLoop.P, config.ControlLoop.I, config.ControlLoop.D) //nolint
-	} else if config.ControlAlgorithm != nil {
-		if config.ControlAlgorithm.Pid != nil {
-			return control_loop.NewPidControlLoop(config.ControlAlgorithm.Pid.P, config.ControlAlgorithm.Pid.I, config.ControlAlgorithm.Pid.D)
-		} else if config.ControlAlgorithm.Direct != nil {
-			return control_loop.NewDirectControlLoop(config.ControlAlgorithm.Direct.MaxPwmChangePerCycle)
-		}
-		return nil
-	}
-	return control_loop.NewPidControlLoop(control_loop.DefaultPidConfig.P, control_loop.DefaultPidConfig.I, control_loop.DefaultPidConfig.D)
+	configuration.LoadConfig()
+	return nil
 }
 
 // Stage is one running L1 world.
@@ -322,7 +218,9 @@ func New(sc *world.Scenario) (*Stage, error) {
 	if err := PreseedDB(w.DBPath(), sc.DB); err != nil {
 		return nil, err
 	}
-	configuration.CurrentConfig = BuildConfig(sc, w)
+	if err := LoadConfiguration(sc, w); err != nil {
+		return nil, err
+	}
 	simhook.Install(w)
 	return s, nil
 }
@@ -373,10 +271,16 @@ func (s *Stage) boot() {
 		return
 	}
 	s.Pers = persistence.NewPersistence(configuration.CurrentConfig.DbPath)
+	// the controllers, created by the daemon's own wiring (control algorithm selection included)
+	ctls, err := internal.VerifInitializeFanControllers(s.Pers, fanMap)
+	if err != nil {
+		s.BootErr = err
+		s.K.Stop()
+		return
+	}
 	for cfg, fan := range fanMap {
 		s.Fans[cfg.ID] = fan
-		loop := ControlLoopFor(cfg)
-		s.Ctls[cfg.ID] = controller.NewFanController(s.Pers, fan, loop, configuration.CurrentConfig.ControllerAdjustmentTickRate)
+		s.Ctls[cfg.ID] = ctls[fan]
 	}
 	for _, sp := range s.Sc.Sensors {
 		if x, ok := sensors.GetSensor(sp.ID); ok {
